@@ -172,10 +172,15 @@ func VerifC03_Chain() {
 			src.WriteString(`<s v-for="e in two">` + m + `</s>`)
 		}
 	}
-	placement := zzChoice("placement", 3)
+	placement := zzChoice("placement", 4)
 	body := src.String()
 	reps := 1
+	var fsys *zzFS
 	switch placement {
+	case 3: // supplied to a component that uses its slot twice
+		fsys = newZZFS(map[string]string{"twice.vuego": `<section><slot></slot><hr><slot></slot></section>`})
+		body = `<template include="twice.vuego">` + body + `</template>`
+		reps = 2
 	case 1:
 		body = "<div>" + body + "</div>"
 	case 2:
@@ -247,7 +252,7 @@ func VerifC03_Chain() {
 		}
 	}
 
-	out, err := zzRenderVia(zzEntry(), nil, nil, body, data)
+	out, err := zzRenderVia(zzEntry(), fsys, nil, body, data)
 	zzNote("template", body)
 	zzNote("out", out)
 	zzAssert(err == nil, "C03.chain.render-error")
